@@ -5,7 +5,7 @@ Open Scope N_scope.
 Notation rle := (list (N * N)) (only parsing).
 
 Definition rend_code (e : rend) : N :=
-  match e with RTerm => 0 | RErr EEOF => 1 | RErr EUnexpected => 2 | RFuel => 99 end.
+  match e with RTerm => 0 | RErr EEOF => 1 | RErr EUnexpected => 2 | RErr ECorrupt => 3 | RFuel => 99 end.
 
 Inductive case :=
 | CRoundtrip (items : list rle) (obs_file : rle) (obs_wck : N)
